@@ -3,6 +3,7 @@
 -/
 import HLV.Props.HoldFamily
 import HLV.Logic.SoloAcq
+import HLV.Logic.Body
 import HLV.Props.C13
 import HLV.Static.Rules
 namespace HLV
@@ -69,6 +70,14 @@ theorem C04_blocking_lock_returns_iff_all_leaves_available_solo (pol : Policy) (
     intro h'; rw [hiff.2 h'] at h; cases h
   obtain ⟨pre, e', h1, h2, _, h4, h5⟩ := hd.acq_stuck m e hw hn (fun p _ => (hq p.1).2) hnall
   exact ⟨pre, e', h1, h2, h4, h5⟩
+
+-- @theorem C04_scoped_closure_runs_exactly_once_iff_acquired : along every execution of every scoped session (scoped_lock / scoped_read / scoped_try_* on any shape, any answers of the raw locks, faults and user panics included) either the closure was entered exactly once — the acquisition had succeeded — or it was not entered at all and the call reports WouldBlock (the try failed) or a panic (the acquisition itself unwound); it never reports Ok without having run the closure, and never runs it twice
+theorem C04_scoped_closure_runs_exactly_once_iff_acquired (C : Ctx) (S : Shape) (ses : Session)
+    (u u' : UserSt) (n : Nat) :
+    wp BodySpec (scopedSessionWith C S ses u u')
+      (fun r n' => n' = n + 1 ∨ (n' = n ∧ (r.1 = mkOutWouldBlock ∨ r.1 = mkOutPanic)))
+      (fun (_ : Unit) _ => True) n :=
+  scopedSession_body_once C S ses u u' n
 
 section
 open HLV.Static HLV.Gen
